@@ -266,6 +266,45 @@ func ruleC03b(c *Ctx, rule string) {
 		}
 		c.floor(rule, "raw pass-through call sites", n, 1)
 	}
+	// buffer reuse: rows handed to a consumer that retains them (the sorting writer) must not share the read buffer
+	if fl := c.need(rule, "(*z.fileStore).flush"); fl != nil {
+		var sortP *ssa.Parameter
+		for _, p := range fl.Params {
+			if p.Name() == "shouldSort" {
+				sortP = p
+			}
+		}
+		if sortP == nil && len(fl.Params) >= 2 {
+			sortP = fl.Params[len(fl.Params)-2]
+		}
+		n := 0
+		for _, f := range withAnon(fl) {
+			for _, call := range callsTo(f, "(*z.fileStore).iterate") {
+				n++
+				a := call.Common().Args
+				ok := false
+				if len(a) >= 4 {
+					if u, isU := a[3].(*ssa.UnOp); isU && u.Op == token.NOT {
+						x := u.X
+						if fv, isFV := x.(*ssa.FreeVar); isFV {
+							x = cellRoot(fv)
+						}
+						if ld, isLd := x.(*ssa.UnOp); isLd && ld.Op == token.MUL {
+							if sts := cellStores(fl, cellRoot(ld.X)); len(sts) == 1 {
+								x = sts[0].Val
+							}
+						}
+						ok = x == ssa.Value(sortP)
+					}
+					if cb, isC := constBool(a[3]); isC && !cb {
+						ok = true // never reusing is always safe
+					}
+				}
+				c.check(rule, "flush: the read buffer is reused only when rows are not retained", call.Pos(), ok, "okayToReuseBuffer = !shouldSort (the sorting writer keeps every row until Close)", "fs.iterate may reuse its read buffer although the flush is sorted: the external-sort writer retains the row slices, so later rows overwrite earlier queued ones")
+			}
+		}
+		c.floor(rule, "fs.iterate call in flush (buffer reuse)", n, 1)
+	}
 	dw := c.need(rule, "(*z.fileStore).doWrite")
 	if dw != nil {
 		var colP, rawP *ssa.Parameter
@@ -403,6 +442,6 @@ func init() {
 		Explanation: "Decides the structural clauses of the merge-on-read/flush plumbing: (a) a scan never stops by itself (path rule over every row loop), (b) raw pass-through happens only for untouched rows with identical layout and its consumer honours it, (c) each key present in both stores is emitted once (one removal context), (d) a flush writes file ∪ memstore with the memstore's own offsets, (e) file store and memstore are swapped and snapshotted atomically (lock regions).",
 		NotDecided:  []string{"Sequence.Merge arithmetic for gaps/overlaps/leads (values)", "which periods the 10th (truncating) flush removes", "crash-point behaviour (see C02); the clean-restart resume wiring is decided (C03.f)"},
 		Assumptions: []string{"io.EOF from binary.Read means end of the file's rows", "sync.RWMutex semantics"},
-		Rules: []func(*Ctx){func(c *Ctx) { ruleC03a(c, "C03.a") }, func(c *Ctx) { ruleC03b(c, "C03.b") }, func(c *Ctx) { ruleC03c(c, "C03.c") }, func(c *Ctx) { ruleC03d(c, "C03.d") }, func(c *Ctx) { ruleLockRegions(c, "C03.e") }, func(c *Ctx) { ruleC02f(c, "C03.f") }},
+		Rules: []func(*Ctx){func(c *Ctx) { ruleC03a(c, "C03.a") }, func(c *Ctx) { ruleC03b(c, "C03.b") }, func(c *Ctx) { ruleC03c(c, "C03.c") }, func(c *Ctx) { ruleC03d(c, "C03.d") }, func(c *Ctx) { ruleLockRegions(c, "C03.e") }, func(c *Ctx) { ruleC02f(c, "C03.f") }, func(c *Ctx) { ruleC15c(c, "C03.g") }},
 	})
 }
